@@ -74,7 +74,7 @@ fn resolve_flow(flow: &mut Flow, consts: &HashMap<String, Expression>) {
     }
 }
 
-fn resolve_nodes(nodes: &mut [Node], consts: &HashMap<String, Expression>) {
+pub(crate) fn resolve_nodes(nodes: &mut [Node], consts: &HashMap<String, Expression>) {
     for node in nodes {
         match node {
             Node::OutputExpression(expression) | Node::ReturnExpr(expression) => {
